@@ -20,10 +20,17 @@ for a in args:
     p, m = a.split(":"); q.put((p, m))
 lock = threading.Lock()
 def sh(cmd, cwd=None, env=None, timeout=2400, inp=None):
+    import signal
+    p = subprocess.Popen(cmd, cwd=cwd, env=env, stdin=subprocess.PIPE if inp is not None else None, stdout=subprocess.PIPE, stderr=subprocess.STDOUT, start_new_session=True)
     try:
-        r = subprocess.run(cmd, cwd=cwd, env=env, input=inp, stdout=subprocess.PIPE, stderr=subprocess.STDOUT, timeout=timeout)
-        return r.returncode, r.stdout.decode("utf-8", "replace")
+        out, _ = p.communicate(input=inp, timeout=timeout)
+        return p.returncode, out.decode("utf-8", "replace")
     except subprocess.TimeoutExpired:
+        try:
+            os.killpg(p.pid, signal.SIGKILL)
+        except ProcessLookupError:
+            pass
+        p.communicate()
         return 124, "TIMEOUT"
 def worker(w):
     wt = "/tmp/xmut_w%d" % w
